@@ -166,6 +166,26 @@ func (p *Prog) Func(rel, name string) *ssa.Function {
 		}
 		return nil
 	}
+	if i := strings.Index(name, "$"); i >= 0 {
+		// closure: Outer$N (go/ssa naming), searched among the anonymous functions
+		outer := sp.Func(name[:i])
+		var find func(f *ssa.Function) *ssa.Function
+		find = func(f *ssa.Function) *ssa.Function {
+			if f == nil {
+				return nil
+			}
+			for _, a := range f.AnonFuncs {
+				if a.Name() == name {
+					return a
+				}
+				if g := find(a); g != nil {
+					return g
+				}
+			}
+			return nil
+		}
+		return find(outer)
+	}
 	return sp.Func(name)
 }
 
